@@ -47,7 +47,12 @@ def main(a):
             shutil.rmtree(root, ignore_errors=True)
     out = os.path.join(VERIF, "selftest_results")
     os.makedirs(out, exist_ok=True)
-    json.dump(results, open(os.path.join(out, "seeded.json"), "w"), indent=1)
+    path = os.path.join(out, "seeded.json")
+    merged = {}
+    if only and os.path.exists(path):          # partial run: keep the entries of the other changes
+        merged = {r["id"]: r for r in json.load(open(path))}
+    merged.update({r["id"]: r for r in results})
+    json.dump([merged[k] for k in sorted(merged)], open(path, "w"), indent=1)
     bad = [r["id"] for r in results if r["status"] != "CAUGHT"]
     print(f"SEEDED caught={len(results) - len(bad)} of {len(results)} not_caught={bad}")
     return 0 if not bad else 1
